@@ -134,6 +134,9 @@ func c20(tier string) []*explore.Scenario {
 	for _, wf := range []bool{false, true} {
 		out = append(out, c20AfterTransportFailure(wf, 0), c20AfterTransportFailure(wf, 2))
 	}
+	for _, re := range []string{"eof", "unexpected-eof", "canceled", ""} {
+		out = append(out, c20OpenDoubleFault(re, true), c20OpenDoubleFault(re, false))
+	}
 	for _, ic := range []string{"retry", "fallback", "own-context", "retry-stream"} {
 		out = append(out, c20ClientInterceptorStats(ic))
 	}
@@ -840,6 +843,56 @@ func c20AfterTransportFailure(writeFails bool, before int) *explore.Scenario {
 				}
 				return false, false
 			})
+		},
+	}
+}
+
+// c20OpenDoubleFault: a stream's opening envelope is inside the transport's Write when the
+// read side fails (with io.EOF / another error); the write then fails too (or goes through).
+// The RPC fails for its caller, and the client's stats handlers are told so: one Begin, one
+// End, End.Error non-nil - whatever error value the failed open happens to carry.
+func c20OpenDoubleFault(readErr string, writeFails bool) *explore.Scenario {
+	fam := "C20/stats"
+	return &explore.Scenario{
+		Name: fmt.Sprintf("C20/open-double-fault/read=%s/write-fails=%v", readErr, writeFails), Family: fam, Prop: "C20", Bound: 1, Horizon: time.Hour,
+		Run: func() {
+			sh := newC20SH("c0")
+			w := env.NewWorld()
+			d := env.NewDirect(w, env.DirectOpts{Pipe: env.PipeOpts{Cap: 64}, DialOpts: []goat.DialOption{goat.WithStatsHandler(sh)}})
+			d.Pipe.A.ReadFailErr = c09Errs[readErr]
+			vsched.Settle()
+			d.Pipe.A.HoldIf = func(k int, rpc *env.Rpc) bool { return rpc.GetHeader().GetMethod() == env.MBidi }
+			vsched.Explore(true)
+			r := w.Rec("s", "Bidi")
+			var cs grpc.ClientStream
+			opened := false
+			vsched.GoNamed("caller", func() { cs = w.Open(d.CC, context.Background(), r); opened = true })
+			vsched.Quiesce()
+			if d.Pipe.A.Holding != 1 {
+				vsched.Fail(fam+"|harness", "the opening write is not held")
+				return
+			}
+			d.Pipe.A.FailReads()
+			vsched.Quiesce()
+			d.Pipe.A.ReleaseHeld(writeFails)
+			d.Pipe.A.HoldIf = nil
+			vsched.Quiesce()
+			if !opened {
+				vsched.Fail(fam+"|harness", "NewStream never returned; threads: %s", threadList())
+				return
+			}
+			failed := cs == nil
+			if cs != nil {
+				// the open went through: the stream then ends by the read failure
+				env.CRecvAll(r, cs)
+				failed = r.CErr != nil && r.CErr != io.EOF
+			}
+			vsched.QuiesceTime()
+			vsched.Obs("read=%s writeFails=%v: open err=%v recv err=%v events=%v", readErr, writeFails, r.COpenErr, r.CErr, sh.events)
+			if !failed {
+				vsched.Fail(fam+"|harness", "the RPC did not fail: %s", r.Summary())
+			}
+			sh.check(fam, "client", 1, func(i int) (bool, bool) { return false, true })
 		},
 	}
 }
